@@ -724,6 +724,173 @@ func (c *Ctx) ruleNoSkipOnExists() {
 	if n == 0 {
 		r.Undecided("C03-NO-SKIP-ON-EXISTS", "sites", "no skip-on-hit lookup found at all (the memo sets used to match)", "")
 	}
+	// the same in any form: a function that declares into a table (stores into it itself or through the functions it
+	// calls) must not leave silently (return nil / continue) on a path on which a presence test of that very table has
+	// hit -- whether or not it looks at the stored value first. Edge facts, so if/else, early return, nested ifs and
+	// comma-ok variables tested later all count.
+	for _, f := range c.libFns() {
+		pk := f.Pkg
+		if strings.HasSuffix(pk.Fset.Position(f.Decl.Pos()).Filename, "_gen.go") {
+			continue
+		}
+		// tables tested in f: field -> the comma-ok variables of its lookups
+		type tbl struct {
+			fld    *types.Var
+			okVars map[types.Object]bool
+		}
+		tables := map[*types.Var]*tbl{}
+		get := func(fld *types.Var) *tbl {
+			if tables[fld] == nil {
+				tables[fld] = &tbl{fld: fld, okVars: map[types.Object]bool{}}
+			}
+			return tables[fld]
+		}
+		tableOf := func(e ast.Expr) *types.Var {
+			fld := fieldSel(pk, e)
+			if fld == nil || fld.Pkg() == nil || !c.P.IsLibPkg(fld.Pkg()) {
+				return nil
+			}
+			if _, isMap := fld.Type().Underlying().(*types.Map); !isMap && !orderedMapType(fld.Type()) {
+				return nil
+			}
+			if _, memo := skipMemoSets[fld.Name()]; memo {
+				return nil
+			}
+			return fld.Origin()
+		}
+		ast.Inspect(f.Decl.Body, func(nd ast.Node) bool {
+			switch x := nd.(type) {
+			case *ast.AssignStmt:
+				if len(x.Lhs) == 2 && len(x.Rhs) == 1 {
+					var t *types.Var
+					if b, _, isIdx := indexOn(pk, x.Rhs[0]); isIdx {
+						t = tableOf(b)
+					} else if call, isCall := ast.Unparen(x.Rhs[0]).(*ast.CallExpr); isCall {
+						if cal := callee(pk, call); cal != nil && cal.Name() == "Get" {
+							if sel, ok := ast.Unparen(call.Fun).(*ast.SelectorExpr); ok {
+								t = tableOf(sel.X)
+							}
+						}
+					}
+					if t != nil {
+						if id, ok := x.Lhs[1].(*ast.Ident); ok && id.Name != "_" {
+							if o := objOf(pk, id); o != nil {
+								get(t).okVars[o] = true
+							}
+						}
+					}
+				}
+			case *ast.CallExpr:
+				if cal := callee(pk, x); cal != nil && cal.Name() == "Has" {
+					if sel, ok := ast.Unparen(x.Fun).(*ast.SelectorExpr); ok {
+						if t := tableOf(sel.X); t != nil {
+							get(t)
+						}
+					}
+				}
+			}
+			return true
+		})
+		if len(tables) == 0 {
+			continue
+		}
+		cf := c.cfgOf(f)
+		for _, t := range tables {
+			if !c.insertsInto(f, t.fld, 0, map[*types.Func]bool{}) {
+				continue
+			}
+			t := t
+			hit := func(cond ast.Expr, holds bool) bool {
+				if !holds {
+					return false
+				}
+				if id, ok := ast.Unparen(cond).(*ast.Ident); ok {
+					return t.okVars[pk.TypesInfo.Uses[id]]
+				}
+				if call, ok := ast.Unparen(cond).(*ast.CallExpr); ok {
+					if cal := callee(pk, call); cal != nil && cal.Name() == "Has" {
+						if sel, ok := ast.Unparen(call.Fun).(*ast.SelectorExpr); ok {
+							return tableOf(sel.X) == t.fld
+						}
+					}
+				}
+				return false
+			}
+			ast.Inspect(f.Decl.Body, func(nd ast.Node) bool {
+				if _, isLit := nd.(*ast.FuncLit); isLit {
+					return false
+				}
+				silent := false
+				switch x := nd.(type) {
+				case *ast.ReturnStmt:
+					silent = len(x.Results) > 0
+					for _, e := range x.Results {
+						if !isNil(pk, e) {
+							silent = false
+						}
+					}
+				case *ast.BranchStmt:
+					silent = x.Tok == token.CONTINUE
+				}
+				if !silent || !cf.establishedAt(nd, hit, nil) {
+					return true
+				}
+				n++
+				key := fmt.Sprintf("%s | silent exit when %s has the key", f.Name(), t.fld.Name())
+				r.Bad("C03-NO-SKIP-ON-EXISTS", key, "the function declares into "+t.fld.Name()+" and leaves without an error on a path on which the name was found to be there already: a second declaration of the name is accepted", c.pos(nd.Pos()))
+				return true
+			})
+		}
+	}
+}
+
+// insertsInto: f stores into the table field (index store or Set/SetToTop on it), itself or through library functions
+// it calls (two levels).
+func (c *Ctx) insertsInto(f *Fn, fld *types.Var, depth int, seen map[*types.Func]bool) bool {
+	if f == nil || f.Decl.Body == nil || seen[f.Obj] {
+		return false
+	}
+	seen[f.Obj] = true
+	pk := f.Pkg
+	found := false
+	var callees []*types.Func
+	ast.Inspect(f.Decl.Body, func(nd ast.Node) bool {
+		switch x := nd.(type) {
+		case *ast.AssignStmt:
+			for _, l := range x.Lhs {
+				if b, _, ok := indexOn(pk, l); ok {
+					if fs := fieldSel(pk, b); fs != nil && fs.Origin() == fld {
+						found = true
+					}
+				}
+			}
+		case *ast.CallExpr:
+			cal := callee(pk, x)
+			if cal == nil {
+				return true
+			}
+			if sel, ok := ast.Unparen(x.Fun).(*ast.SelectorExpr); ok && (cal.Name() == "Set" || cal.Name() == "SetToTop") {
+				if fs := fieldSel(pk, sel.X); fs != nil && fs.Origin() == fld {
+					found = true
+				}
+			}
+			if cal.Pkg() != nil && c.P.IsLibPkg(cal.Pkg()) {
+				callees = append(callees, cal)
+			}
+		}
+		return !found
+	})
+	if found {
+		return true
+	}
+	if depth < 2 {
+		for _, g := range callees {
+			if c.insertsInto(c.fnOf(g), fld, depth+1, seen) {
+				return true
+			}
+		}
+	}
+	return false
 }
 
 // mapIsCallLocal: the map expression is a local variable initialised by make / a composite literal in f, or a
